@@ -229,6 +229,17 @@ func (ka *ecdheKeyAgreementGM) processServerKeyExchange(config *Config, clientHe
 	if ka.x == nil {
 		return errServerKeyExchange
 	}
+	if ka.curveid != X25519 {
+		// generateClientKeyExchange computes on the curve that the server
+		// named: it has to be one we know and the point has to be on it.
+		named, ok := curveForCurveID(ka.curveid)
+		if !ok {
+			return errors.New("tls: server selected unsupported curve")
+		}
+		if !named.IsOnCurve(ka.x, ka.y) {
+			return errServerKeyExchange
+		}
+	}
 
 	var signatureAlgorithm SignatureScheme
 	_, sigType, hashFunc, err := pickSignatureAlgorithm(cert.PublicKey, []SignatureScheme{signatureAlgorithm}, clientHello.supportedSignatureAlgorithms, ka.version)
